@@ -61,7 +61,9 @@ func (w *c01pworld) handler(rw http.ResponseWriter, q *http.Request, rec *rig.Or
 	h.Set("Last-Modified", rig.LastMod(cur))
 	h.Set("Content-Type", rig.CType(res, cur))
 	h.Set("X-Verif-Len", strconv.Itoa(n))
-	h.Set("Content-Length", strconv.Itoa(n))
+	if res%3 != 2 && !(res >= 5000 && res%2 == 0) {
+		h.Set("Content-Length", strconv.Itoa(n)) // every third resource (every second in the abort scenario) is sent without a length (chunked)
+	}
 	h.Set("Cache-Control", "max-age=3600")
 	rw.WriteHeader(200)
 	body := rig.Body(res, cur, n)
@@ -242,7 +244,14 @@ func c01RunProxy(b core.Batch, r *core.Recorder) {
 							}
 							q := rig.Req{Target: target}
 							kind := "get"
-							switch rr.IntN(6) {
+							switch rr.IntN(7) {
+							case 6:
+								if scenario == "churn" {
+									// a Range request whose If-Range names a validator the entry never had: the answer is
+									// the complete 200 built from the store
+									q.Header = [][2]string{{"Range", "bytes=0-9"}, {"If-Range", "\"a-validator-of-long-ago\""}}
+									kind = "range-get-if-range-mismatch"
+								}
 							case 0:
 								q.SlowReadEvery, q.SlowReadSleep = 2048, 300*time.Microsecond
 								kind = "slow-get"
